@@ -15,7 +15,9 @@ verus! {
 #[verifier::external_body] #[verifier::reject_recursive_types(T)] pub struct StateHD<T> { _p: core::marker::PhantomData<T> }
 #[verifier::external_body] #[verifier::reject_recursive_types(T)] pub struct Moles<T> { _p: core::marker::PhantomData<T> }
 #[verifier::external_body] #[verifier::reject_recursive_types(T)] pub struct MolarWeight<T> { _p: core::marker::PhantomData<T> }
-#[verifier::external_body] #[verifier::reject_recursive_types(T)] pub struct EosResult<T> { _p: core::marker::PhantomData<T> }
+// EosResult is a real `Result`, so that `?` / `Ok(..)` in a variant of the forwarding code type-check
+#[verifier::external_body] pub struct EosError { _p: () }
+pub type EosResult<T> = Result<T, EosError>;
 #[verifier::external_body] pub struct Temperature { _p: () }
 #[verifier::external_body] pub struct Volume { _p: () }
 #[verifier::external_body] pub struct Viscosity { _p: () }
